@@ -28,6 +28,7 @@ SOCK = "/run/gv/u.sock"
 
 KEY_HUPCHILD = "hup-child-master-pidfile"
 KEY_BOTHSTOP = "simultaneous-stop-leaves-socket"
+KEY_ACCEPTED = "accepted-not-started-dropped"
 
 
 # ---------------------------------------------------------------------------------------------------------------------
@@ -496,12 +497,25 @@ def run_sim(ctx):
 def run(ctx):
     ok = ctx.build()
     run_sim(ctx)
+    run_handover(ctx)
+    run_real(ctx)
     ctx.cov["rule"] = ("upgrade histories: sequences of <= 10 events {USR2, TERM, child exit noticed (SIGCHLD), parent death noticed (main loop), "
                        "HUP, WINCH} addressed to either master, the real Arbiter playing the old master or the re-executed one; configurations "
                        "vary pid file, unix / TCP bind, daemon; non-trivial = a fork+exec happened; distinct by (configuration, role, history)")
 
 
 def replay(rep):
+    if rep.get("kind") == "real":
+        fails, tr = upgrade_scenario(*rep["scenario"])
+        for t in tr:
+            print(t)
+        print("failures:", fails)
+        return 1 if fails else 0
+    if rep.get("kind") == "handover":
+        ls = [((a if isinstance(a, str) else tuple(a)), b) for a, b in rep["listeners_raw"]]
+        fs = handover_case(ls, rep["systemd"], rep["pidconf"])
+        print("failures:", fs)
+        return 1 if fs else 0
     cfg, real = rep["cfg"], rep["real"]
     evs = [tuple(e) for e in rep["events"]]
     u = run_history(cfg, real, evs)
@@ -510,3 +524,369 @@ def replay(rep):
     fs = judge(cfg, real, u)
     print("oracle failures:", fs)
     return 1 if fs else 0
+
+
+# =====================================================================================================================
+# exec hand-over: the environment built by reexec()'s child branch, given to a second Arbiter.start()
+# =====================================================================================================================
+
+class Captured(BaseException):
+    def __init__(self, path, args, env):
+        self.path, self.args_, self.env = path, args, env
+
+
+def reexec_child_env(listeners, systemd, pidfile=None):
+    """run the child branch of the REAL Arbiter.reexec(): os.fork() returns 0, os.execvpe is captured"""
+    import gunicorn.arbiter as ga
+    import gunicorn.app.base as gbase
+    import gunicorn.util as gutil
+
+    class App(gbase.BaseApplication):
+        def init(self, parser, opts, args):
+            pass
+
+        def load(self):
+            return None
+
+        def load_config(self):
+            self.cfg.set("logger_class", "lib_arbiter.NullLog")
+            self.cfg.set("workers", 1)
+
+    state = {"forked": False}
+
+    class Os(L.Passthrough):
+        environ = {"PATH": "/usr/bin", "KEEP_ME": "1"}
+
+        def fork(self):
+            state["forked"] = True
+            return 0
+
+        def getpid(self):
+            return 61 if state["forked"] else SELF
+
+        def chdir(self, d):
+            return None
+
+        def execvpe(self, path, args, env):
+            raise Captured(path, list(args), dict(env))
+
+    saved = (ga.os, gutil._setproctitle)
+    ga.os = Os(os)
+    gutil._setproctitle = lambda t: None
+    try:
+        arb = ga.Arbiter(App())
+        arb.pid = SELF
+        arb.systemd = systemd
+        arb.LISTENERS = [L.FakeListener(name, fd) for name, fd in listeners]
+        try:
+            arb.reexec()
+        except Captured as c:
+            return {"path": c.path, "args": c.args_, "env": c.env, "start_ctx": dict(arb.START_CTX)}
+        return None
+    finally:
+        ga.os, gutil._setproctitle = saved
+
+
+def handover_case(listeners, systemd, pidconf):
+    """-> list of failures"""
+    fails = []
+    got = reexec_child_env(listeners, systemd)
+    if got is None:
+        return ["reexec() did not exec in the child"]
+    env = got["env"]
+    if env.get("GUNICORN_PID") != str(SELF):
+        fails.append("GUNICORN_PID=%r, the old master is %d" % (env.get("GUNICORN_PID"), SELF))
+    # the child: a second real Arbiter started with that environment (its pid is SELF in the simulated kernel, so the
+    # parent is given another pid)
+    parent = 77
+    cenv = {k: v for k, v in env.items() if k in ("GUNICORN_FD", "LISTEN_FDS", "LISTEN_PID")}
+    if systemd:
+        if cenv.get("LISTEN_PID") != "61":
+            fails.append("LISTEN_PID=%r is not the pid of the process that execs (61)" % cenv.get("LISTEN_PID"))
+        cenv["LISTEN_PID"] = str(SELF)
+    w = A.World2(workers=1, pidfile=("g.pid" if pidconf else None), binds=["127.0.0.1:9"], master_pid=parent,
+                 env=cenv, live=(parent,))
+    w._fdn = {fd: name for name, fd in listeners}
+    if pidconf:
+        with open(w.pidpath("g.pid"), "w") as fh:
+            fh.write("%d\n" % parent)
+    try:
+        w.run([("M",)] * 6)
+        a = w.arbiter
+        adopted = sorted((l.fd, l.name) for l in a.LISTENERS)
+        want = sorted((fd, name) for name, fd in listeners)
+        if adopted != want:
+            fails.append("the new master adopted %r, the old master listens on %r" % (adopted, want))
+        if w.created_sockets and w.created_sockets[0] is None:
+            fails.append("the new master bound new sockets instead of adopting the inherited descriptors")
+        if int(a.master_pid) != parent:
+            fails.append("master_pid=%r in the new master" % (a.master_pid,))
+        if bool(a.systemd) != bool(systemd):
+            fails.append("systemd flag %r in the new master (old: %r)" % (a.systemd, systemd))
+        files = w.pid_files()
+        if pidconf and files.get("g.pid.2") != SELF:
+            fails.append("the new master's pid is not in '<pidfile>.2': %r" % (files,))
+        if pidconf and files.get("g.pid") != parent:
+            fails.append("the old master's pid file was touched: %r" % (files,))
+        if w.outcome[0] not in ("done",):
+            fails.append("the new master did not come up: %r" % (w.outcome,))
+    finally:
+        w.cleanup()
+    return fails
+
+
+def run_handover(ctx):
+    n = 0
+    for trial in range(40 if ctx.quick() else 400):
+        k = ctx.rng.randint(1, 3)
+        systemd = ctx.rng.random() < 0.3
+        fds = list(range(3, 3 + k)) if systemd else ctx.rng.sample(range(5, 40), k)
+        names = [ctx.rng.choice(["/run/gv/%d.sock" % i, ("127.0.0.1", 8000 + i)]) for i in range(k)]
+        listeners = list(zip(names, fds))
+        pidconf = ctx.rng.random() < 0.6
+        fs = handover_case(listeners, systemd, pidconf)
+        n += 1
+        ctx.count_case(("handover", tuple(fds), systemd, pidconf), nontrivial=True)
+        ctx.hist("handover", "systemd" if systemd else "gunicorn_fd")
+        for f in fs:
+            ctx.violation("exec hand-over: " + f, {"kind": "handover", "listeners": [[repr(a), b] for a, b in listeners],
+                                                   "listeners_raw": [[a if isinstance(a, str) else list(a), b] for a, b in listeners],
+                                                   "systemd": systemd, "pidconf": pidconf})
+    ctx.log("checked %d exec hand-overs (reexec child branch -> second Arbiter.start)" % n)
+
+
+# =====================================================================================================================
+# REAL processes: two masters
+# =====================================================================================================================
+import lib_arb2_real as R
+
+
+def wait_for(cond, timeout, step=0.05):
+    t0 = time.time()
+    while time.time() - t0 < timeout:
+        v = cond()
+        if v:
+            return v
+        time.sleep(step)
+    return cond()
+
+
+class Load(threading.Thread):
+    """clients connecting all the time: every response must be complete, no connection may be refused"""
+
+    def __init__(self, srv, period=0.04, d=0.05):
+        threading.Thread.__init__(self)
+        self.srv, self.period, self.d = srv, period, d
+        self.stop_flag = False
+        self.results = []          # (t, ok, detail, pid, ppid-of-worker)
+        self.errors = []
+
+    def run(self):
+        while not self.stop_flag:
+            t = time.time()
+            c = R.Client(self.srv, timeout=10).connect()
+            if c.err:
+                self.errors.append((t, c.err))
+            else:
+                c.send(R.Client.request(d=self.d))
+                r = c.read_response(10)
+                ok = r["status"] == 200 and r["complete"]
+                ppid = None
+                for kv in (r.get("body") or b"").split(b";"):
+                    if kv.startswith(b"ppid="):
+                        ppid = int(kv[5:])
+                self.results.append((t, ok, r["status"], r["pid"], ppid))
+                if not ok:
+                    self.errors.append((t, "incomplete response: status %r, %d bytes, client error %r" % (r["status"], r["raw_len"], c.err)))
+                c.close()
+            time.sleep(self.period)
+
+    def finish(self):
+        self.stop_flag = True
+        self.join(15)
+
+
+def masters_of(srv):
+    """live master processes of the family: those that have children or are named in a pid file"""
+    fam = srv.family()
+    parents = set(R.proc_ppid(p) for p in fam)
+    return sorted(p for p in fam if p in parents or p in (srv.read_pid(), srv.read_pid(".2")))
+
+
+def upgrade_scenario(name, bind="unix", stop_sig="TERM", worker_class="sync"):
+    """-> (failures, trace)"""
+    fails = []
+    tr = []
+    daemon = name == "winch-hup"
+    srv = R.Server(worker_class=worker_class, workers=1, graceful=3, bind=bind, daemon=daemon)
+    sig = getattr(_signal, "SIG" + stop_sig)
+    load = None
+    quick_at = []
+
+    def stop(pid, signo=None):
+        signo = sig if signo is None else signo
+        if signo != _signal.SIGTERM:
+            quick_at.append(time.time())
+        srv.signal(signo, pid)
+    try:
+        srv.start()
+        old = srv.master
+        load = Load(srv)
+        load.start()
+        time.sleep(0.3)
+        srv.signal(_signal.SIGUSR2, old)
+        new = wait_for(lambda: srv.read_pid(".2"), 15)
+        tr.append(("usr2", old, new))
+        if not new:
+            fails.append("no '<pidfile>.2' appeared after USR2")
+            return fails, tr
+        if srv.read_pid() != old:
+            fails.append("the old master's pid file changed after USR2: %r" % srv.read_pid())
+        wait_for(lambda: len(srv.children(new)) >= 1, 15)
+        if R.proc_ppid(new) != old:
+            fails.append("the new master %r is not a child of the old one" % new)
+
+        def gone(pid):
+            return not R.pid_alive(pid)
+
+        if name == "second-usr2":
+            srv.signal(_signal.SIGUSR2, old)
+            srv.signal(_signal.SIGUSR2, new)
+            time.sleep(2.0)
+            fam = srv.family()
+            tr.append(("family", fam))
+            if len(fam) != 4:
+                fails.append("after a second USR2 (to both masters) the family has %d processes, expected 2 masters + 2 workers: %r" % (len(fam), fam))
+            if srv.read_pid(".2") != new or srv.read_pid() != old:
+                fails.append("pid files changed by the second USR2")
+            name = "old-first"
+        if name == "old-first":
+            stop(old)
+            if not wait_for(lambda: gone(old), 15):
+                fails.append("the old master did not exit")
+            if bind == "unix" and not os.path.exists(srv.sock_path):
+                fails.append("the unix socket file vanished when the old master exited first")
+            ok = wait_for(lambda: srv.read_pid() == new and srv.read_pid(".2") is None, 10)
+            tr.append(("promoted", srv.read_pid(), srv.read_pid(".2")))
+            if not ok:
+                fails.append("after the old master exited the pid files are %r / %r, expected %r / none" % (srv.read_pid(), srv.read_pid(".2"), new))
+            time.sleep(0.5)
+            last = new
+        elif name == "new-first" or name == "winch-hup":
+            if name == "winch-hup":
+                srv.signal(_signal.SIGWINCH, old)
+                wait_for(lambda: len(srv.children(old)) == 1, 10)      # only the new master is left as a child
+                tr.append(("winch", srv.children(old)))
+                time.sleep(0.3)
+            stop(new)
+            if not wait_for(lambda: gone(new), 15):
+                fails.append("the new master did not exit")
+            if bind == "unix" and not os.path.exists(srv.sock_path):
+                fails.append("the unix socket file vanished when the new master exited first")
+            time.sleep(0.3)
+            if srv.read_pid(".2") is not None or srv.read_pid() != old:
+                fails.append("after the rollback the pid files are %r / %r, expected %r / none" % (srv.read_pid(), srv.read_pid(".2"), old))
+            if name == "winch-hup":
+                srv.signal(_signal.SIGHUP, old)
+                if not wait_for(lambda: len(srv.children(old)) >= 1, 10):
+                    fails.append("HUP after WINCH did not bring the old master's workers back")
+                time.sleep(0.5)
+            # the old master is a single master again: a new upgrade works
+            srv.signal(_signal.SIGUSR2, old)
+            new2 = wait_for(lambda: srv.read_pid(".2"), 15)
+            tr.append(("usr2-again", new2))
+            if not new2 or new2 == new:
+                fails.append("after the rollback a new USR2 did not start a new master")
+            else:
+                wait_for(lambda: len(srv.children(new2)) >= 1, 15)
+                stop(new2)
+                wait_for(lambda: gone(new2), 15)
+            last = old
+        elif name == "both":
+            load.finish()                      # nobody is left to answer afterwards
+            srv.signal(sig, old)
+            srv.signal(sig, new)
+            wait_for(lambda: gone(old) and gone(new), 15)
+            last = None
+        time.sleep(0.3)
+        load.finish()
+        # a quick stop (INT / QUIT) does not wait for requests: failures right around it are its documented effect
+        errs = [e for e in load.errors if not any(q - 0.5 <= e[0] <= q + 1.5 for q in quick_at)]
+        tr.append(("client-errors", len(load.errors), "outside quick-stop windows", len(errs)))
+        # gthread / gevent / eventlet: a connection that was accepted but whose request was not started is dropped (reset)
+        soft = [e for e in errs if worker_class != "sync" and ("ECONNRESET" in e[1] or "status None, 0 bytes" in e[1])]
+        hard = [e for e in errs if e not in soft]
+        if soft:
+            fails.append("KNOWN:%s %d connection(s) accepted by a %s worker that was told to stop were reset before the request was read; first: %r"
+                         % (KEY_ACCEPTED, len(soft), worker_class, soft[0]))
+        if hard:
+            fails.append("%d of %d client connections failed during the upgrade; first: %r" % (len(hard), len(load.results) + len(load.errors), hard[0]))
+        served_by = sorted(set(r[4] for r in load.results if r[4]))
+        tr.append(("requests", len(load.results), "served by workers of masters", served_by))
+        if last is not None:
+            srv.signal(_signal.SIGTERM, last)
+            if not wait_for(lambda: gone(last), 15):
+                fails.append("the last master did not exit")
+            time.sleep(0.3)
+            left = wait_for(lambda: not srv.family(), 3) or srv.family()
+            if srv.family():
+                fails.append("processes %r left after the last master exited" % (srv.family(),))
+            if bind == "unix" and os.path.exists(srv.sock_path):
+                fails.append("the last master exited but the unix socket file is still there")
+            if srv.read_pid() is not None or srv.read_pid(".2") is not None:
+                fails.append("pid files left: %r / %r" % (srv.read_pid(), srv.read_pid(".2")))
+        else:
+            time.sleep(0.5)
+            left_sock = os.path.exists(srv.sock_path) if bind == "unix" else None
+            tr.append(("both-stopped: socket file left", left_sock))
+            if left_sock:
+                fails.append("KNOWN:%s both masters were stopped at the same moment: neither unlinked the unix socket file" % KEY_BOTHSTOP)
+            if srv.family():
+                fails.append("processes %r left after both masters were stopped" % (srv.family(),))
+    except Exception as e:
+        fails.append("harness: %s: %s\n%s" % (type(e).__name__, e, srv.read_log()[-1200:]))
+    finally:
+        if load is not None and load.is_alive():
+            load.finish()
+        tr.append(("log-tail", srv.read_log()[-600:]))
+        srv.cleanup()
+    return fails, tr
+
+
+def run_real(ctx):
+    if ctx.quick():
+        scns = [("old-first", "unix", "TERM", "sync"), ("new-first", "unix", "QUIT", "sync"), ("second-usr2", "tcp", "TERM", "gthread")]
+    else:
+        scns = []
+        for name in ("old-first", "new-first", "second-usr2", "winch-hup", "both"):
+            for bind in ("unix", "tcp"):
+                for sg in ("TERM", "QUIT"):
+                    scns.append((name, bind, sg, "sync" if len(scns) % 2 == 0 else "gthread"))
+    results = [None] * len(scns)
+
+    def work(i):
+        results[i] = upgrade_scenario(*scns[i])
+    for k in range(0, len(scns), 4):
+        ths = [threading.Thread(target=work, args=(i,)) for i in range(k, min(k + 4, len(scns)))]
+        for t in ths:
+            t.start()
+        for t in ths:
+            t.join()
+    for i, r in enumerate(results):
+        if r is None or any(f.startswith("harness:") for f in r[0]):
+            results[i] = upgrade_scenario(*scns[i])
+    nf = 0
+    for scn, (fails, tr) in zip(scns, results):
+        ctx.count_case(("real",) + scn, nontrivial=True)
+        ctx.hist("real", "/".join(scn))
+        for f in fails:
+            nf += 1
+            if f.startswith("harness:"):
+                ctx.broken.append("real-process run %r could not be carried out: %s" % (scn, f[:600]))
+            elif f.startswith("KNOWN:"):
+                key, text = f[6:].split(" ", 1)
+                ctx.violation("two real masters (%s): %s" % ("/".join(scn), text), {"kind": "real", "scenario": list(scn), "trace": [list(map(repr, t)) for t in tr]}, key=key)
+            else:
+                ctx.violation("two real masters (%s): %s" % ("/".join(scn), f), {"kind": "real", "scenario": list(scn), "trace": [list(map(repr, t)) for t in tr]})
+    ctx.extra["real_runs"] = [{"scenario": "/".join(s), "failures": r[0], "trace": [repr(t)[:200] for t in r[1][:-1]]} for s, r in zip(scns, results)]
+    ctx.log("ran %d real two-master upgrades; %d failures" % (len(scns), nf))
